@@ -8,13 +8,14 @@ from ..src import AnalysisError, M_CASING, M_NAMING
 from ..sym import N, dotted, show
 
 PROP = "C19"
-TECHNIQUE = "dataflow: every pythonize_* result flows through the keyword/identifier guard; both guard branches exist (E2 summary of sanitize_name)"
+TECHNIQUE = "dataflow through the keyword/identifier guard (I1); E2 path conditions of enum-member shortening (I2); structural agreement of emitted-key expression, key table and lookup (I3)"
 EXPLANATION = (
-    "Static guard check: the value returned by each pythonize_* function and by safe_snake_case is shown to flow through sanitize_name, "
-    "and sanitize_name's summary is shown to contain the keyword branch (suffix '_') and the non-identifier branch (prefix '_') with "
-    "tests keyword.iskeyword / str.isidentifier. This decides only the 'valid identifier, not a keyword' clause. The retraction clause "
-    "(to_dict key maps back to its field; idempotence) is a property of regular-expression semantics over strings and is NOT decided "
-    "(it is known by inspection to fail for names such as address_line_1 and x_y_z)."
+    "Static guard and agreement checks. I1: the value returned by each pythonize_* function and by safe_snake_case flows through "
+    "sanitize_name, whose summary contains the keyword branch (suffix '_') and the non-identifier branch (prefix '_'). I2: enum member "
+    "names lose only an anchored ENUM_NAME_ prefix, never become empty, and members of one enum are kept distinct. I3: the key "
+    "expression of to_dict/to_pydict equals the expression that fills the per-class key table, the table covers all fields and casings, "
+    "from_dict/from_pydict consult it first and fall back to the plugin's proto-name function. Idempotence of the regex-based casing "
+    "functions over all identifiers is not decided."
 )
 RULE_TEXT = "obligation = (rule, function); evaluations = abstract paths; non-trivial = distinct naming functions"
 
